@@ -15,7 +15,8 @@
 (***************************************************************************)
 EXTENDS Integers, Sequences, FiniteSets, TLC, Json
 
-CONSTANTS Kinds       \* document kinds explored: subset of {"adf11", "adf15", "adf2x", "adf12"}
+CONSTANTS Kinds,      \* document kinds explored: subset of {"adf11", "adf15", "adf2x", "adf12"}
+          Deep        \* TRUE (thorough): more table sizes around the 8-values-per-line wrap
 
 \* value mantissas (the harness maps a mantissa to the decimal written in the file)
 Val(b, i, j) == 10000 * b + 100 * i + j
@@ -27,7 +28,7 @@ Adf11Classes == {"scd", "acd", "ccd", "plt", "prb", "prc"}
 ChargeCorrection(cls) == IF cls \in {"scd", "plt"} THEN -1 ELSE 0
 
 Adf11Docs == {[kind |-> "adf11", cls |-> cls, z |-> z, nd |-> nd, nt |-> nt, zmin |-> zmin, zmax |-> zmax, match |-> m] :
-                 cls \in Adf11Classes, z \in {2, 10, 18}, nd \in {1, 3, 8, 9}, nt \in {2, 8, 10}, zmin \in {1, 2}, zmax \in {2, 10, 18}, m \in BOOLEAN}
+                 cls \in Adf11Classes, z \in {2, 10, 18}, nd \in (IF Deep THEN {1, 2, 3, 7, 8, 9, 16, 17} ELSE {1, 3, 8, 9}), nt \in (IF Deep THEN {2, 7, 8, 9, 10, 16, 17} ELSE {2, 8, 10}), zmin \in {1, 2}, zmax \in {2, 10, 18}, m \in BOOLEAN}
 Adf11OK(d) == d.zmin <= d.zmax /\ d.zmax <= d.z /\ (d.nd > 1 \/ d.nt > 1)
 \* parsed table of block Z1: [density index i][temperature index j] = Val(Z1, j, i)   (file order is temperature-major)
 Expected11(d) == [blocks |-> [b \in d.zmin..d.zmax |-> [charge |-> b + ChargeCorrection(d.cls), file_label |-> b]],
@@ -41,7 +42,7 @@ Expected2x(d) == [cm3 |-> d.file # "adf22bmp", outcome |-> "ok"]
 \* ADF15: transition blocks in file order, index (ISEL) table in the comments, three header conventions
 \* rule: is the index table's column header followed by a dashed rule line (the open-ADAS layout) or directly by the first row
 Adf15Docs == {[kind |-> "adf15", header |-> h, nb |-> nb, nd |-> nd, nt |-> nt, perm |-> p, missing |-> ms, rule |-> ru] :
-                 h \in {"hydrogen", "hydrogen-like", "full"}, nb \in 1..3, nd \in {1, 3, 9}, nt \in {2, 8, 11}, p \in BOOLEAN, ms \in BOOLEAN, ru \in BOOLEAN}
+                 h \in {"hydrogen", "hydrogen-like", "full"}, nb \in 1..3, nd \in (IF Deep THEN {1, 3, 8, 9, 16, 17} ELSE {1, 3, 9}), nt \in (IF Deep THEN {2, 7, 8, 9, 11, 17} ELSE {2, 8, 11}), p \in BOOLEAN, ms \in BOOLEAN, ru \in BOOLEAN}
 BlockType(k) == CASE k = 1 -> "excitation" [] k = 2 -> "recombination" [] k = 3 -> "thermalcx"
 \* with perm the index table lists the blocks in reverse order: the assignment must follow ISEL, not position
 Expected15(d) == [blocks |-> [k \in 1..d.nb |-> [isel |-> k, cls |-> BlockType(k), upper |-> k + 2, lower |-> k + 1, wavelength_A |-> 1000 * k + 5]],
